@@ -1,11 +1,11 @@
 package main
 
 import (
-	"sort"
 	"encoding/json"
 	"fmt"
 	"os"
 	"path/filepath"
+	"sort"
 	"strings"
 )
 
@@ -32,8 +32,8 @@ func (r *Rng) Intn(n int) int {
 	}
 	return int(r.Next() % uint64(n))
 }
-func (r *Rng) Bool() bool        { return r.Next()&1 == 1 }
-func (r *Rng) Chance(p int) bool { return r.Intn(100) < p }
+func (r *Rng) Bool() bool          { return r.Next()&1 == 1 }
+func (r *Rng) Chance(p int) bool   { return r.Intn(100) < p }
 func Pick[T any](r *Rng, xs []T) T { return xs[r.Intn(len(xs))] }
 
 // ---- Coq term printing ----
@@ -200,13 +200,13 @@ type Meta struct {
 	Seed        uint64           `json:"seed"`
 	Shard       int              `json:"shard"`
 	Files       []string         `json:"files"`
-	Offsets     []int            `json:"offsets,omitempty"` // index of the first case of each file (default k*shard)
+	Offsets     []int            `json:"offsets,omitempty"`   // index of the first case of each file (default k*shard)
 	IndexMap    []int            `json:"index_map,omitempty"` // judged-case number -> index into Cases (when only some cases go to Coq)
 	NCases      int              `json:"n_cases"`
 	Distinct    int              `json:"distinct_nontrivial"`
 	Rule        string           `json:"rule"`
 	Histogram   map[string]int   `json:"histogram"`
-	Cases       []any            `json:"cases"` // JSON description per case (for replay files and samples)
+	Cases       []any            `json:"cases"`                   // JSON description per case (for replay files and samples)
 	GoViolation []map[string]any `json:"go_violations,omitempty"` // violations decided on the Go side alone (panics, direct oracles)
 	CaseKeys    []string         `json:"case_keys,omitempty"`     // content keys of the judged cases (properties whose findings are recorded per input)
 }
